@@ -53,8 +53,10 @@ CLAIMED = {
         'fires only after its inputs, with exactly its formula\'s value.',
         'Trusted: TLC; the generator\'s geometry resolution (ranges as id '
         'matrices) and spelling; the small function set of Workbook.tla '
-        '(SUM, COUNT, MAX, IF, IFERROR, ISERROR). Whole-column references are '
-        'not generated here.',
+        '(SUM, COUNT, MAX, IF, IFERROR, ISERROR). Whole-column references '
+        '(SUM(A:A)) only in a small separate family of workbooks (6 quick / 30 '
+        'thorough, dict and file paths): each costs seconds and gigabytes in '
+        'this library.',
         'DESIGN.md 4/C03'),
     'C04': (
         'TLC model checking of Refs.tla (column letters bijective over all '
@@ -142,7 +144,9 @@ CLAIMED = {
         'also observed without any expected value: 400 (quick) sequences of '
         '2-4 calculations with supplied cells / unpopulated range members / '
         'whole sparse ranges run on one model, and the last calculation must '
-        'give the same solution on a fresh model (harness/hdjob.py).',
+        'give the same solution on a fresh model (harness/hdjob.py). Directed '
+        'workbooks: an array-formula block wholly inside a larger referenced '
+        'range, values supplied through that range or its name.',
         'Trusted: TLC; the generator and the concretisation of override sets; '
         'Lifecycle.tla is a history generator with read/write sets taken from '
         'reading the code, not a proof about the code.',
@@ -166,7 +170,9 @@ CLAIMED = {
         'values calculate(inputs=, outputs=) gives (where a value supplied '
         'through a range / name does not reach a formula member in calculate() '
         'either - the recorded C07 finding - agreement with calculate() is what '
-        'is required). Random single formulas with references: '
+        'is required; the recorded finding is limited to blank inputs without '
+        'a node of their own). Directed workbooks with two overlapping ranges '
+        'sharing one blank cell. Random single formulas with references: '
         'compile()(*args in func.inputs order), arguments including pairs of '
         'different error values, must equal the formula with the arguments '
         'written in as literals.',
@@ -183,8 +189,11 @@ CLAIMED = {
         'wrapped as ="...", how quotes are doubled, what import reads as '
         'formula / error / blank placeholder); TLC checks RoundTripOK and '
         'PlainUntouched for all 7381 strings up to length 4 over {= " # a A N '
-        '/ 1 +} and all strings up to length 6 over the letters of #EMPTY, '
-        'and every one of them is stored as a text cell of a real workbook, '
+        '/ 1 +}, all strings up to length 6 over the letters of #EMPTY and '
+        'all strings up to length 5 over {space = { # N / A ! 1} (leading '
+        'white space, {=, sheet-qualified error names), '
+        'and every one of them (quick: every string that needs escaping and a '
+        'sample of the others) is stored as a text cell of a real workbook, '
         'exported, imported and compared (value and second export). Seeded '
         'workbooks with every constant kind, names, array formulas and '
         'cross-sheet/book references are exported, passed through json, '
@@ -211,15 +220,18 @@ CLAIMED = {
         'wait for themselves #CIRC! and continues with the mark as an error '
         'value; TLC checks that every order of lazy evaluation agrees with '
         'LazySem and becomes total. Generated cyclic workbooks (unguarded, '
-        'guarded, fallback, range and name back references) are finished with '
+        'guarded, fallback, range and name back references; rings of 2-3 '
+        'guarded cells with independent guards; one cell closing two cycles) '
+        'are finished with '
         'circular=True and calculated under both load paths, shuffled orders '
         'and the hash seeds, with a watchdog; every cell is compared with '
         'its expectation class (ordinary value exact, #CIRC! on unavoidable '
         'cycles, any error downstream), and the outcomes of one workbook must '
         'be identical under every hash seed and load path.',
         'Trusted: TLC; the generator. The static cut analysis of the code is '
-        'not transcribed; its two systematic deviations from evaluation by '
-        'need are recorded as known findings.',
+        'not transcribed; its systematic deviations from evaluation by need '
+        '(and the order-dependent placement of the mark on an unavoidable '
+        'multi-cell cycle) are recorded as known findings.',
         'DESIGN.md 4/C10'),
     'C13': (
         'TLC model checking of Volatile.tla (NeverFrozen, OncePerEpoch over '
@@ -241,7 +253,10 @@ CLAIMED = {
         'RANDBETWEEN over all pairs of half / tenth bounds (InBounds, '
         'NumIffEmpty, Ends); each pair is drawn 40 times on the real function: '
         'an integer of the allowed set, #NUM! when no integer lies between the '
-        'bounds, not always the same value. The recorded vol events (function, compiling flag) must show '
+        'bounds, not always the same value. NOW / TODAY under a clock that '
+        'advances at every reading, also across midnight: the value lies '
+        'between the first and last reading of its own evaluation. The '
+        'recorded vol events (function, compiling flag) must show '
         'no real evaluation while obtaining and exactly one per site per use.',
         'Trusted: TLC; the clock patch (module attribute of '
         'formulas.functions.date) and numpy seeding. Equal volatile '
@@ -265,7 +280,8 @@ CLAIMED = {
         'files absent and the unreadable one garbage (one seed in three with '
         'numeric link ids: every book\'s link table starts with an unreadable '
         'LEGACY.XLS, cross-book references are written [n]Sheet!A1 and faults '
-        'go through [1]), loaded, finished and '
+        'go through [1]; fault sites also hold several distinct unresolved '
+        'items in one formula), loaded, finished and '
         'calculated: no exception, every cell equals SemF - hence cells '
         'outside the faults\' cones keep the fault-free values and IFERROR / '
         'ISERROR intercept - and the recorded calculation is a Calc behaviour.',
@@ -290,7 +306,8 @@ CLAIMED = {
         'registered (hook H7) must include Needs(W, outs) (CompleteTrace). One '
         'workbook in four has the same sheet title in two books (all formula '
         'cells requested), one in four sheet titles with asymmetric case '
-        'mappings (Stra\u00dfe, \u00b5g).',
+        'mappings (Stra\u00dfe, \u00b5g); every other workbook carries stale cached '
+        'values in the spill cells of its array formulas.',
         'Trusted: TLC; the generator; whole-column references are not '
         'generated.',
         'DESIGN.md 4/C15'),
@@ -310,7 +327,8 @@ CLAIMED = {
         'logicals not numbers), unsolved cells with the previous content, and '
         'compare() with the model\'s own files must report nothing. One workbook '
         'in three has sheet titles whose upper / lower case mappings are not '
-        'mirror images (the file keeps Stra\u00dfe, the model knows STRASSE).',
+        'mirror images (the file keeps Stra\u00dfe, the model knows STRASSE); a '
+        'second solution is written over the same files and compared again.',
         'Trusted: TLC; openpyxl as the independent reader; the generator.',
         'DESIGN.md 4/C16'),
     'C17': (
@@ -329,8 +347,16 @@ CLAIMED = {
         'equivalent to its original, and nothing done to one changes the '
         'other. A compiled function, its deepcopy and its dill round trip '
         'must all return Sem after the original has been called with other '
-        'arguments.',
-        'Trusted: TLC; generator; dill and copy from the standard environment.',
+        'arguments. Independent / HistoryFree are also observed against '
+        'isolated references (harness/cpjob.py): 320 (quick) dictionary '
+        'models over a broad function vocabulary, a copy (deepcopy / dill / '
+        'JSON round trip), calculations interleaved on model and copy with '
+        'inputs that are ==-equal values of different types (1 / TRUE / "1"); '
+        'every result must equal the same (model, inputs) computed in a '
+        'process of its own that has evaluated nothing else.',
+        'Trusted: TLC; generator; dill and copy from the standard environment; '
+        'for the isolated references the library itself in a pristine process '
+        '(an oracle for independence, not for values).',
         'DESIGN.md 4/C17'),
     'C18': (
         'TLC model checking of ShuntingYard.tla/Grammar.tla (every token '
